@@ -246,5 +246,36 @@ theorem sum_asgs_eq_tuples {K : Type} (sz : Nat) : ∀ (keys : List K) (F : List
     have := sum_asgs_eq_tuples sz keys (fun a => F (a ++ [(k, x)]))
     rw [this]
     simp
+
+/-! ## factor kinds: a `funsor.Constant` factor is its expansion
+
+  `Constant({p…}, g)` has the const plates among its inputs (so they count for its ordinal) and the value
+  of `g` whatever their indices.  In the model (and in what the harness sends to `unroll`/`psp`) it IS the
+  table `expandF g [p…]`: same inputs as the Constant, constant along the const plates.  So replacing a
+  broadcast Tensor factor by the Constant leaves `unroll` literally unchanged — the two are the same table —
+  and any difference in what funsor returns is funsor's (`constant.py`: multiplicities `x*n`, `x**n`, `x+log n`). -/
+
+/-- the table of `f` expanded over extra (const) inputs -/
+def expandF (f : Factor α) (extra : List (Name × Nat)) : Option (Factor α) :=
+  tabulate (extra ++ f.inputs) fun e => f.eval e
+
+theorem expandF_inputs {f g : Factor α} {extra : List (Name × Nat)} (h : expandF f extra = some g) :
+    g.inputs = extra ++ f.inputs := tabulate_inputs h
+
+/-- the expansion has the value of the inner factor … -/
+theorem expand_eval {f g : Factor α} {extra : List (Name × Nat)} (h : expandF f extra = some g) (env : Env)
+    (hc : Covers env (extra ++ f.inputs)) : g.eval env = f.eval env := by
+  unfold expandF at h
+  rw [tabulate_eval _ _ g h env hc]
+  refine eval_congr f _ _ fun p hp => lookup_pointOf env _ hc p.1 ?_
+  exact List.mem_map.2 ⟨p, List.mem_append_right _ hp, rfl⟩
+
+/-- … and ignores its const plates: two environments that agree on the inner factor's inputs give the
+    same value, whatever the indices of the const plates. -/
+theorem expand_ignores_const {f g : Factor α} {extra : List (Name × Nat)} (h : expandF f extra = some g)
+    (env env' : Env) (hc : Covers env (extra ++ f.inputs)) (hc' : Covers env' (extra ++ f.inputs))
+    (hagree : ∀ p ∈ f.inputs, env.lookup p.1 = env'.lookup p.1) : g.eval env = g.eval env' := by
+  rw [expand_eval h env hc, expand_eval h env' hc']
+  exact eval_congr f env env' hagree
 end Plated
 end FV.Props.C09.Exec
